@@ -108,6 +108,9 @@ META["rule"] += (
 META["rule"] += (
     " " + 'Added after the sixth round: missing_values switched off on 30 % of the live objects with missing samples; a shallow copy taken before the setters of a history is judged against the old matrix afterwards.')
 
+META["rule"] += (
+    " " + 'Added after the seventh round: series with NaN samples and missing_values=False, the two storage modes against each other.')
+
 SCALARS = [
     ("max_diaglength", "diag", None), ("determinism", "diag", "frac"),
     ("average_diaglength", "diag", "avg"), ("diag_entropy", "diag", "ent"),
